@@ -470,6 +470,17 @@ impl<'a> Client<'a> {
             for f in &shape.files {
                 per_level[f.level] += 1;
             }
+            // well formed at any moment, also while the background thread is busy
+            let mut fs = vec![];
+            check_shape_structure(&shape, &mut fs, "while background work may be running");
+            with_out(self.out, |o| {
+                o.stats.bump("shape_structure_checks_any_time", 1);
+                for f in fs {
+                    if o.findings.len() < 12 {
+                        o.findings.push(f);
+                    }
+                }
+            });
             with_out(self.out, |o| {
                 if per_level[0] >= 4 && per_level[1] >= 2 {
                     o.stats.probe("l0_ge4_over_l1_ge2");
@@ -1009,6 +1020,30 @@ pub fn check_shape(shape: &VerifShape, findings: &mut Vec<Finding>, entries: imp
         }
     }
     per_level
+}
+
+/// The structural part of `check_shape` (no table is read): file numbers unique, bounds ordered,
+/// levels >= 1 sorted and disjoint. Versions are installed atomically under the database mutex, so
+/// this must hold at ANY moment, not only at quiescent ones.
+pub fn check_shape_structure(shape: &VerifShape, findings: &mut Vec<Finding>, when: &str) {
+    let mut seen: BTreeSet<u64> = BTreeSet::new();
+    for f in &shape.files {
+        if !seen.insert(f.number) {
+            findings.push(Finding::new(&["C10"], "duplicate-file-number", "", format!("{}: file number {} appears twice in the version", when, f.number), None));
+        }
+        if !internal_le(&f.smallest, &f.largest) {
+            findings.push(Finding::new(&["C10"], "bounds-swapped", "", format!("{}: file {} at level {}: smallest {} > largest {}", when, f.number, f.level, show_ikey(&f.smallest), show_ikey(&f.largest)), None));
+        }
+    }
+    for level in 1..7 {
+        let files: Vec<_> = shape.files.iter().filter(|f| f.level == level).collect();
+        for w in files.windows(2) {
+            if !internal_lt(&w[0].largest, &w[1].smallest) {
+                let class = if internal_lt(&w[1].smallest, &w[0].smallest) { "level-unsorted" } else { "level-overlap" };
+                findings.push(Finding::new(&["C10"], class, "", format!("{}: level {}: file {} [{} .. {}] and file {} [{} .. {}] are not ordered and disjoint", when, level, w[0].number, show_ikey(&w[0].smallest), show_ikey(&w[0].largest), w[1].number, show_ikey(&w[1].smallest), show_ikey(&w[1].largest)), None));
+            }
+        }
+    }
 }
 
 pub struct DirDiff {
